@@ -1394,7 +1394,7 @@ class Interp:
             ctx.oblige("safety", f"index-in-range@{node.lineno}", z3.And(0 <= idx, idx < n))
             return elem
         if isinstance(obj, dict) and is_concrete(idx):
-            if idx in obj:
+            if idx in obj or hasattr(type(obj), "__missing__"):
                 return obj[idx]
             raise PyRaise(ExcVal("KeyError", (idx,), origin=f"key@{node.lineno}"))
         if isinstance(obj, Rec) and "__getitem__" in obj.methods:
@@ -2024,6 +2024,8 @@ def _b_getattr(interp, args, kwargs, node):
         if len(args) > 2:
             return args[2]
         raise PyRaise(ExcVal("AttributeError", (name,), origin=f"getattr@{node.lineno}"))
+    if obj is None and len(args) > 2 and not name.startswith("__"):
+        return args[2]
     raise Unsupported("getattr on non-record", node)
 
 
